@@ -8,7 +8,7 @@ from .. import cases, monitors, oracles
 from . import _align_common as ac
 
 TITLE = "Fast alignment terminates with a valid, never-better-than-optimal alignment"
-DECIDING = ["M-PROG", "M-PART", "M-DIS", "M-NOT-BETTER", "M-FULL-WINDOW", "M-GAMMA-MODE"]
+DECIDING = ["M-PROG", "M-PART", "M-DIS", "M-NOT-BETTER", "M-FULL-WINDOW", "M-GAMMA-MODE", "M-FAST-CONCURRENT", "M-FAST-SESSION"]
 LEVEL = "exploration"
 RULE = ("seeded random continua biased towards nested and long-overlapping units (the family in which every windowed "
         "unitary alignment can reach past the window limit), empty annotators, ties, 2-5 annotators x every window size "
@@ -17,7 +17,9 @@ RULE = ("seeded random continua biased towards nested and long-overlapping units
         "clock; the result is checked to be a partition with a disorder matching its units, >= the exact best "
         "alignment's, and equal to it when window*annotators >= units; plus fast-mode compute_gamma runs on small "
         "(windowing disadvantageous) and larger sparse continua (windowing advantageous) with call counters on "
-        "get_fast_alignment, incl. two-step histories on one continuum object (large, then shrunk). non-trivial = continuum with >= 3 units; distinct by SHA-1 of (continuum, dissimilarity, window)")
+        "get_fast_alignment, incl. two-step histories on one continuum object (large, then shrunk); one case in six is an editing session (fast-align, "
+        "add_annotator / merge of a unit-less annotator / add / remove / far outlier / reset_bounds on the same continuum object, fast-align again with the same "
+        "dissimilarity object and window); a block in which one continuum object is fast-aligned by 8 user threads at once. non-trivial = continuum with >= 3 units; distinct by SHA-1 of (continuum, dissimilarity, window)")
 ASSUMPTIONS = [
     "the fast loop is a deterministic function of the remaining units, so an iteration that consumes nothing repeats "
     "forever: stagnation is non-termination (no wall-clock involved)",
@@ -50,6 +52,21 @@ def check_alignment_case(ctx, case):
     cspec, dspec = case["continuum"], case["dissim"]
     dissim = pool.get(dspec)
     continuum = cases.build_continuum(cspec)
+    if case.get("session"):
+        # ONE continuum object and one dissimilarity object: fast-align with every window, edit, fast-align again ...
+        for op in [None] + case["session"]:
+            if op is not None:
+                ac.apply_edit(continuum, op)
+            if not continuum or len(continuum.annotators) < 2:
+                continue
+            ctx.count("M-FAST-SESSION")
+            now = dict(cases.spec_of(continuum), family=cspec.get("family"))
+            _check_windows(ctx, case, continuum, now, dissim)
+        return
+    _check_windows(ctx, case, continuum, cspec, dissim)
+
+
+def _check_windows(ctx, case, continuum, cspec, dissim):
     n = len(cspec["ann"])
     nunits = cases.spec_num_units(cspec)
     try:
@@ -201,6 +218,9 @@ def _sampler(name):
 
 def check_case(ctx, case):
     _install(ctx)
+    if "concurrent" in case:
+        from . import _align_common as ac
+        return ac.check_concurrent_case(ctx, case, "M-FAST-CONCURRENT")
     if case["type"] == "gamma":
         check_gamma_case(ctx, case)
     else:
@@ -228,6 +248,13 @@ def run(ctx):
     case = {"type": "align", "continuum": d6, "dissim": {"kind": "positional", "delta": 1.0}, "windows": [1, 2, 3, 4, 5]}
     ctx.begin_case(case)
     check_case(ctx, case)
+    # one continuum object fast-aligned by several user threads at once
+    from . import _align_common as ac
+    for _ in range(ctx.scale(4, 60)):
+        case = ac.gen_concurrent_case(rng, "fast")
+        ctx.begin_case(case)
+        ctx.observe("family", "concurrent-threads")
+        check_case(ctx, case)
     n_cases = ctx.scale(140, 5000)
     for i in range(n_cases):
         if ctx.out_of_time():
@@ -248,6 +275,9 @@ def run(ctx):
         if len(windows) > 4:
             windows = sorted(rng.sample(windows[:-2], 2) + windows[-2:])
         case = {"type": "align", "continuum": cspec, "dissim": dspec, "windows": windows}
+        if i % 6 == 1 and cspec.get("family") != "coarse":
+            case["session"] = ac.gen_edit_ops(rng, cspec, labels or cases.LABELS_SMALL, rng.randint(1, 3))
+            case["windows"] = windows[:2]
         ctx.begin_case(case, nontrivial=nunits >= 3)
         ctx.observe("family", cspec["family"])
         ctx.observe("annotators", n)
